@@ -145,7 +145,7 @@ INCLUDE = {
     # YAML -> Interface: null suppresses, values recorded as configured (the loader half of "exactly the configured values")
     "C17": [("C19", "c19_radv_interface", ("`", "a configured", "an absent", "dns-search lifetime", "dns-servers lifetime", "an accepted hop-limit", "managed flag", "other flag", "reachable is", "retransmit is"))],
     # apply-range / apply-subnet / apply-address expand to exactly the documented address set
-    "C02": [("C19", "c19_dhcp_policy", ("apply-range hands out", "apply-subnet hands out", "apply-address hands out", "a policy with apply-range"))],
+    "C02": [("C11", "c11_policy", ("a policy list applies exactly", "address pool =")), ("C19", "c19_dhcp_policy", ("apply-range hands out", "apply-subnet hands out", "apply-address hands out", "a policy with apply-range"))],
 }
 
 
@@ -392,15 +392,18 @@ def _run_property(pid, tier, seed, logdir):
         from mirsym import props_policy, enums as _en
         structs = _en.scan_structs(REPO)
         jobs = []
-        for name, mk, pl, ro in props_policy.shapes(tier):
-            def job(name=name, mk=mk, pl=pl, ro=ro):
+        for shp in props_policy.shapes(tier):
+            name, mk, pl, ro = shp[:4]
+            hl = shp[4] if len(shp) > 4 else 6
+
+            def job(name=name, mk=mk, pl=pl, ro=ro, hl=hl):
                 t0 = time.time()
                 oname = "c11_policy_" + name
                 bounds = ("apply_policies on the policy tree shape '%s' (which conditions / applications / sub-policies exist is concrete; hardware addresses, subnet addresses, option values, "
                           "the request's hardware address, receiving address and option values are symbolic), parameter request list %s, request options %s" % (name, pl, sorted(ro)))
                 oracle = props_policy.__doc__.split("erbium.conf(5):")[1].strip()
                 try:
-                    failed, ex, npaths, kinds = props_policy.obligation(prog, en, structs, mk, pl, ro)
+                    failed, ex, npaths, kinds = props_policy.obligation(prog, en, structs, mk, pl, ro, hl)
                     for f in failed:
                         f["check"] = oname
                     return dict(name=oname, engine="mirsym", functions=sorted(f.split("::")[-1] for f in ex.encoded_fns), bounds=bounds, oracle=oracle,
